@@ -134,6 +134,7 @@ func driverPP(c *Ctx) {
 		g := c.gen(i)
 		g.Indexed = i%3 == 0 // names with an index behind them next to their base name: v1 and v1[0]
 		g.Ladder, g.LadderTo = 20, 257
+		g.Wordy = i%2 == 1
 		if i%4 != 3 {
 			c.emit(i, ppEvent(g.expressible(), "api"))
 			c.count("pp.api")
@@ -364,7 +365,8 @@ func driverSizes(c *Ctx) {
 	}
 	// a size violation behind a declaration that spans several lines (in an enclosing list, a sibling, the item itself,
 	// an earlier message): the error is reported at *its* declaration, line and column
-	for _, ml := range []string{"[2\n]", "[\n2]", "[ 1 ..\n 2 ]", "[1 // lower\n..2]", "[\r\n1\r\n..\r\n2\r\n]", "[2 //c\n//d\n]"} {
+	for _, ml := range []string{"[2\n]", "[\n2]", "[ 1 ..\n 2 ]", "[1 // lower\n..2]", "[\r\n1\r\n..\r\n2\r\n]", "[2 //c\n//d\n]",
+		"[1 // see note [1]\n ..2]", "[ // [2..4]\n 2 ]", "[1 // a\n // b\n ..2]"} {
 		for _, ty := range []string{"U1", "A", "L", "F8", "BOOLEAN"} {
 			v := val[ty]
 			if v == "" {
@@ -611,7 +613,7 @@ func (g *Gen) respace(lex string) string {
 		return lex
 	}
 	ws := func() string {
-		return []string{"", "", " ", "\t", "\n", "\r\n", " \r\n ", " // c\n", "// [9]\r\n", "\n//\n"}[g.pick(10)]
+		return []string{"", "", " ", "\t", "\n", "\r\n", " \r\n ", " // c\n", "// [9]\r\n", "\n//\n", " // a\n // b\n", "\n\n//x\r\n\t//y ]\n"}[g.pick(12)]
 	}
 	out := "[" + ws()
 	for _, part := range m[1:] {
@@ -749,13 +751,25 @@ func driverConcat(c *Ctx) {
 				return fmt.Sprintf("S2F%d <L slot%d <U2 slot%d slot0> <L slot1 ...>> .", 2*k+1, 2+g.pick(cnt-3), cnt-1)
 			}
 			pos := g.pick(n)
+			twice := g.pick(2) == 0 // the large message a second time (under another header): the same names at the same positions
 			for k := 0; k < n; k++ {
-				if k == pos {
-					parts = append(parts, big)
+				if k == pos || (twice && k == (pos+1)%n) {
+					parts = append(parts, strings.Replace(big, "S1F1 W", fmt.Sprintf("S%dF1 W", k+1), 1))
 				} else {
 					parts = append(parts, small(k))
 				}
 			}
+		case 7:
+			// ASCII variables whose name and lower bound read alike when written next to each other: v1 from 2 / v from 12
+			base := []string{"v", "PPID", "x_"}[g.pick(3)]
+			d, m, hi := 1+g.pick(2), []int{0, 2, 5}[g.pick(3)], []string{"40", ""}[g.pick(2)]
+			a := fmt.Sprintf("S1F1 <L <A[%d..%s] %s%d> <U1 7>> .", m, hi, base, d)
+			b := fmt.Sprintf("S1F3 W <L <A[%d%d..%s] %s>> .", d, m, hi, base)
+			cmsg := fmt.Sprintf("S1F5 <A %s%d0> .", base, d)
+			dmsg := fmt.Sprintf("S1F7 <A[%d0..] %s> .", d, base)
+			all := [][]string{{a, b}, {b, a}, {cmsg, dmsg, a}, {a, cmsg, b, dmsg}}[g.pick(4)]
+			parts = append(parts, all...)
+			n = len(parts)
 		}
 		for len(parts) < n {
 			g.varSeq = 0 // the same variable names and ellipsis numbers come back in every message
